@@ -25,7 +25,7 @@ BIN_DIV = ["DIV", "SDIV", "MOD", "SMOD"]
 UN = ["ISZERO", "NOT"]
 TER = ["ADDMOD", "MULMOD"]
 ENV0 = ["ADDRESS", "ORIGIN", "CALLER", "CALLVALUE", "CALLDATASIZE", "CODESIZE", "COINBASE", "TIMESTAMP", "NUMBER",
-        "DIFFICULTY", "GASLIMIT", "CHAINID", "SELFBALANCE", "BASEFEE", "RETURNDATASIZE", "PC", "MSIZE"]
+        "DIFFICULTY", "GASLIMIT", "CHAINID", "SELFBALANCE", "BASEFEE", "RETURNDATASIZE", "PC"]
 
 
 def compile_expr(e) -> list:
@@ -234,24 +234,49 @@ def fam_memory(rnd: random.Random, ninputs: int = 10):
     g = Gen(rnd, nin=3, max_div=0)
     offs = [0, 1, 5, 31, 32, 33, 60, 64, 95, 96, 100, 127, 128]
     body = []
+    # halmos derives MSIZE from the highest offset *written*; the EVM also counts reads.  That
+    # divergence is a recorded finding (probe `msize-after-read`), so the random corpus only asks
+    # for MSIZE while both notions agree: hw = end of the highest write, ht = end of the highest touch.
+    hw = ht = 0
+
+    def c32(n):
+        return (n + 31) // 32 * 32
+
     for _ in range(rnd.randint(2, 6)):
         k = rnd.random()
         o = rnd.choice(offs)
         if k < 0.25:
             body += compile_expr(g.expr(1)) + [("PUSH", o), "MSTORE"]
+            hw = max(hw, o + 32)
         elif k < 0.4:
             body += compile_expr(g.expr(1)) + [("PUSH", o), "MSTORE8"]
+            hw = max(hw, o + 1)
         elif k < 0.55:
             # CALLDATACOPY(dst, off, size), possibly reading past the end of calldata
-            body += [("PUSH", rnd.choice([0, 1, 7, 32, 33, 64, 100])), ("PUSH", rnd.choice([0, 1, 31, 32, 64, 90, 96, 200])), ("PUSH", o), "CALLDATACOPY"]
+            sz = rnd.choice([0, 1, 7, 32, 33, 64, 100])
+            body += [("PUSH", sz), ("PUSH", rnd.choice([0, 1, 31, 32, 64, 90, 96, 200])), ("PUSH", o), "CALLDATACOPY"]
+            if sz:
+                hw = max(hw, o + sz)
         elif k < 0.65:
-            body += [("PUSH", rnd.choice([0, 1, 7, 32, 40])), ("PUSH", rnd.choice([0, 1, 5, 30, 1000])), ("PUSH", o), "CODECOPY"]
+            sz = rnd.choice([0, 1, 7, 32, 40])
+            body += [("PUSH", sz), ("PUSH", rnd.choice([0, 1, 5, 30, 1000])), ("PUSH", o), "CODECOPY"]
+            if sz:
+                hw = max(hw, o + sz)
         elif k < 0.8:
-            body += [("PUSH", rnd.choice([0, 1, 31, 32, 33, 64])), ("PUSH", rnd.choice(offs)), ("PUSH", o), "MCOPY"]
+            sz = rnd.choice([0, 1, 31, 32, 33, 64])
+            src = rnd.choice(offs)
+            body += [("PUSH", sz), ("PUSH", src), ("PUSH", o), "MCOPY"]
+            if sz:
+                hw = max(hw, o + sz)
+                ht = max(ht, src + sz)
         elif k < 0.9:
-            body += [("PUSH", rnd.choice(offs)), "MLOAD", ("PUSH", o), "MSTORE"]
-        else:
+            src = rnd.choice(offs)
+            body += [("PUSH", src), "MLOAD", ("PUSH", o), "MSTORE"]
+            ht = max(ht, src + 32)
+            hw = max(hw, o + 32)
+        elif c32(ht) <= c32(hw):
             body += ["MSIZE", ("PUSH", o), "MSTORE"]
+            hw = max(hw, o + 32)
     size = rnd.choice([32, 64, 96, 160, 192, 200])
     code = assemble(body + [("PUSH", size), ("PUSH", rnd.choice([0, 0, 0, 1, 32])), "RETURN"])
     names = [f"cd{i}" for i in range(g.nin)]
